@@ -64,7 +64,7 @@ prop(
           "of every normalised list up to the stated bound through every unary operation with every argument and every ordered pair "
           "through the binary ones. Non-trivial = history with >=3 mutating steps that removes a root or an edge endpoint (random part), "
           "enumerated list with an edge and a root (enumeration); distinct = digest of the whole history / of the enumeration code."),
-    assumptions=["arguments of in-place operations are passed as clones, so aliasing between pool members (C12's subject) does not leak into this check"],
+    assumptions=["half of the histories pass arguments of in-place operations as clones, the other half pass the pool members themselves (a change that lets two lists share edge objects shows as a broken invariant of the other list)"],
     level_text=("Sequences of editing operations are generated, shrunk as a whole, and the well-formedness (and, where promised, "
                 "normalisation) invariant plus the exact RemoveNodes postcondition are checked after every step against a set model; the "
                 "enumeration covers all small lists completely (exhaustive within the stated bound)."),
